@@ -4,6 +4,7 @@
 // meaning of the operation's name.  The word view is taken through the storage unions
 // (Store::unpack / Into<vecNNN_storage>), and is itself pinned against lanes, scalars and bytes by
 // the C13 obligations.
+#![recursion_limit = "1024"]
 #![allow(non_camel_case_types, unused_imports, dead_code, clippy::all)]
 #[path = "../common/nd.rs"]
 #[macro_use]
